@@ -222,7 +222,7 @@ def run_once(sc, fault=None, body_raise=None, spoil=None, noop_on=None, hooks=No
     kw = {}
     if cfg.get("try_encodings") is not None:
         kw["try_encodings"] = list(cfg["try_encodings"])
-    if cfg.get("buffering") is not None:
+    if cfg.get("buffering") is not None and cfg["buffering"] >= 2:
         kw["buffering"] = cfg["buffering"]
     kw["strict"] = bool(cfg.get("strict", True))
     if hooks:
